@@ -208,8 +208,10 @@ var families = []family{
 		Texts: []string{"{ echo(s: \"\"\"a\nb\"\"\") }", `{ echo(s: """a b""") }`}},
 	{ID: "unicode", Why: "NFC and NFD spellings of a string literal are different data",
 		Texts: []string{"{ echo(s: \"\u00e9\") }", "{ echo(s: \"e\u0301\") }"}},
-	{ID: "outerws", Why: "same document, different bytes (trailing newline, leading space, BOM): same meaning, different hash",
-		Texts: []string{"{a}", "{a}\n", " {a}", "\ufeff{a}"}},
+	{ID: "trailing", Why: "same document with and without a trailing newline: same meaning, different hash",
+		Texts: []string{"{a}", "{a}\n"}},
+	{ID: "leading", Why: "same document after a leading space / byte order mark: same meaning, different hash",
+		Texts: []string{"{a}", " {a}", "\ufeff{a}"}},
 	{ID: "eol", Why: "same document with LF / CRLF line ends: same meaning, different hash",
 		Texts: []string{"{ a\n b }", "{ a\r\n b }"}},
 }
